@@ -156,7 +156,7 @@ func (f *Frame) initElems(ref string, elem types.Type) {
 		}
 		as := arrSort("Int", arrSort("Int", srt))
 		arr := f.heapGet(key, as)
-		z := "((as const " + arrSort("Int", srt) + ") " + zeroTerm(l.Ty) + ")"
+		z := zeroArray(srt, zeroTerm(l.Ty))
 		f.heapSet(key, as, app("store", arr, ref, z))
 	}
 }
@@ -180,4 +180,14 @@ func (f *Frame) frameObl(ref, key, idx, why, pos string) {
 	}
 	s.addObl(&Obligation{Name: s.C.Key() + "#frame(" + why + ")", Kind: "frame", Guard: f.cur.reach, Goal: goal, Pos: pos,
 		Clause: "write to " + key + " must hit memory allocated by this call or listed in modifies"})
+}
+
+// zeroArray: an array whose every cell is the zero value. cvc5 accepts (as const ...) only for literal values,
+// so for the uninterpreted-based sorts a prelude constant with a quantified axiom is used.
+func zeroArray(srt, zero string) string {
+	switch srt {
+	case "Int", "Bool":
+		return "((as const " + arrSort("Int", srt) + ") " + zero + ")"
+	}
+	return "zero_arr_" + srt
 }
